@@ -96,7 +96,7 @@ def compare(impl, model):
     ci, cm = cases(impl), cases(model)
     st = {"with_delays": 0, "cases": len(ci), "ticks": 0, "transfers": 0, "captures": 0, "back_to_back_prod": 0, "back_to_back_cons": 0,
           "fanout": {}, "bonds_per_net": {}, "procs_per_net": {}, "relays": 0, "two_inputs_same_bond": 0, "port_not_0": 0, "env_nets": 0, "sicv3_nets": 0,
-          "vt_ok": 0, "rt_ok": 0, "hw_skipped_env": 0, "distinct": set()}
+          "vt_ok": 0, "rt_ok": 0, "hw_skipped_env": 0, "hw_values_compared": 0, "halting_nets": 0, "distinct": set()}
     fails = []
     if len(ci) != len(cm):
         return st, [{"kind": "oracle-desync", "detail": "%d vs %d cases" % (len(ci), len(cm))}]
@@ -169,6 +169,7 @@ def compare(impl, model):
         # hardware
         rt = next((l for l in b["lines"] if l.startswith("RT ")), "RT missing")
         vt = next((l for l in b["lines"] if l.startswith("VT ")), "VT missing")
+        st["halting_nets"] += rt.startswith("RT skipped halting")
         if rt.startswith("RT skipped") and vt.startswith("VT skipped"):
             st["hw_skipped_env"] += 1
             continue
@@ -188,6 +189,18 @@ def compare(impl, model):
                 fails.append(dict(base, kind="property-fails-on-impl", world="emitted Verilog under BMV.Vlog", bond=bi, written=VW.get(bi, []),
                                   consumer=j, got=got,
                                   why="hardware consumer %d of bond %d captured %s but the producer wrote %s" % (j, bi, got, VW.get(bi, []))))
+        # the same programs produce the same streams in both worlds: the nets are blocking dataflow networks
+        # (every read and write waits for its partner, nothing reads the clock), so the sequence of values on
+        # a bond does not depend on speeds -- the hardware's sequence and the simulator's must be prefixes of
+        # one another (not so with sicv3, which counts its waiting time)
+        if not sic:
+            for bi in sorted(set(W) & set(VW)):
+                n = min(len(W[bi]), len(VW[bi]))
+                st["hw_values_compared"] += n
+                if W[bi][:n] != VW[bi][:n]:
+                    fails.append(dict(base, kind="property-fails-on-impl", world="emitted Verilog under BMV.Vlog", bond=bi, written=VW[bi], consumer=-1, got=W[bi],
+                                      why="the hardware producer of bond %d put %s on the bond, the program (as the simulator runs it) produces %s" % (bi, VW[bi][:n], W[bi][:n])))
+                    break
         # a bond that stops moving in hardware while it keeps moving in the simulator is a deadlock
         if VW and len(G) >= 120 and not sic:   # (with sicv3 in the net the two worlds need not keep the same pace)
             for bi, w in sorted(W.items()):
@@ -297,7 +310,7 @@ def run(rep):
         "models (no_deadlock_isa / no_deadlock_rtl) and additionally observed on the implementation (a net that stops transferring is reported)",
     ]
     tot = {"with_delays": 0, "cases": 0, "ticks": 0, "transfers": 0, "captures": 0, "back_to_back_prod": 0, "back_to_back_cons": 0,
-           "relays": 0, "two_inputs_same_bond": 0, "port_not_0": 0, "env_nets": 0, "sicv3_nets": 0, "vt_ok": 0, "rt_ok": 0, "hw_skipped_env": 0}
+           "relays": 0, "two_inputs_same_bond": 0, "port_not_0": 0, "env_nets": 0, "sicv3_nets": 0, "vt_ok": 0, "rt_ok": 0, "hw_skipped_env": 0, "hw_values_compared": 0, "halting_nets": 0}
     hist = {"fanout": {}, "bonds_per_net": {}, "procs_per_net": {}}
     distinct, fails, samples = set(), [], []
 
